@@ -35,8 +35,10 @@ TQuery == Step(/\ Ev.op = "query"
                       fb   == IF Ev.first = Latest THEN head ELSE Ev.first
                       lb   == IF Ev.last = Latest THEN head ELSE Ev.last
                       kind == IF Inverted(Ev.first, Ev.last) \/ fb > lb THEN "invalid" ELSE IF lb > head THEN "future" ELSE "ok"
-                  IN /\ Ev.err = kind
-                     /\ outcome' = [kind |-> kind, logs |-> Ev.result, view |-> view, f |-> FilterOf(Ev.filter),
+                  IN /\ \/ Ev.err = kind
+                        \* an indexed search may fail when the indexed range moves under it (see QSearchFails)
+                        \/ Ev.err = "error" /\ kind = "ok" /\ (Ev.progress # Ev.progress2 \/ Ev.nsched > 0)
+                     /\ outcome' = [kind |-> Ev.err, logs |-> Ev.result, view |-> view, f |-> FilterOf(Ev.filter),
                                     first |-> Ev.first, last |-> Ev.last, sr |-> Rng(fb, lb + 1)]
                /\ UNCHANGED <<idx, valid, q>>)
 
